@@ -151,10 +151,10 @@ def signed_int_to_bytes(bytes):
 
 def define_blockshape_2d(bits_per_voxel, blockshape):
     assert blockshape[0] == 1
-    return define_blockshape_3d(bits_per_voxel, blockshape)
+    return define_blockshape_3d(bits_per_voxel, blockshape, n_dims=2)
 
 
-def define_blockshape_3d(bits_per_voxel, blockshape):
+def define_blockshape_3d(bits_per_voxel, blockshape, n_dims=3):
     if sum([1 for n in list(blockshape) + [bits_per_voxel] if n == -1]) > 1:
         raise ValueError("Blockshape is underdefined")
 
@@ -162,6 +162,9 @@ def define_blockshape_3d(bits_per_voxel, blockshape):
         bits_per_voxel = float(bits_per_voxel)
 
     bits_per_voxel = 1 / -bits_per_voxel if bits_per_voxel < -1 else bits_per_voxel
+
+    if (bits_per_voxel <= 0 and bits_per_voxel != -1) or any(n <= 0 and n != -1 for n in blockshape):
+        raise ValueError("Blockshape and bits_per_voxel must be positive (or -1 where one is to be calculated)")
 
     if bits_per_voxel == -1:
         bits_per_voxel = DISK_BLOCK_BYTES * 8 / (blockshape[0] * blockshape[1] * blockshape[2])
@@ -177,6 +180,14 @@ def define_blockshape_3d(bits_per_voxel, blockshape):
                                                             (blockshape[0] * blockshape[1] * bits_per_voxel)))
         else:
             assert(bits_per_voxel * blockshape[0] * blockshape[1] * blockshape[2] == DISK_BLOCK_BYTES * 8)
+
+    # Whatever was calculated, only write files which can be read back
+    if not all(n >= 4 and n & (n - 1) == 0 for n in blockshape[3 - n_dims:]):
+        raise ValueError(f"Blockshape {blockshape} invalid: dimensions must be powers of 2 and at least 4")
+    if bits_per_voxel * blockshape[0] * blockshape[1] * blockshape[2] != DISK_BLOCK_BYTES * 8:
+        raise ValueError(f"Blockshape {blockshape} at {bits_per_voxel} bits per voxel does not fill one disk block")
+    if bits_per_voxel * 4 ** n_dims < 9:
+        raise ValueError(f"ZFP cannot encode {n_dims}D blocks of 32-bit floats using {bits_per_voxel} bits per voxel")
     return bits_per_voxel, blockshape
 
 
